@@ -68,8 +68,13 @@ def _observe(sid, ver, etm):
     import tlslite.recordlayer as RL
     name = CipherSuite.ietfNames[sid]
     toks = name.split("_")
-    out = {"sid": sid, "ver": list(ver), "name": name, "tokens": toks}
-    f = suites.force(sid, ver, {"useEncryptThenMAC": etm}, {"useEncryptThenMAC": etm})
+    out = {"sid": sid, "ver": list(ver), "name": name, "tokens": toks, "variant": "hrr" if etm == "hrr" else ""}
+    if etm == "hrr":
+        # the same suite reached through a HelloRetryRequest (the transcript is re-based on the suite's hash)
+        f = suites.force(sid, ver, {"keyShares": ["x25519"], "eccCurves": ["x25519", "secp256r1"]},
+                         {"keyShares": ["secp256r1"], "eccCurves": ["secp256r1"]})
+    else:
+        f = suites.force(sid, ver, {"useEncryptThenMAC": etm}, {"useEncryptThenMAC": etm})
     if f is None:
         out["obs"] = {"ev": "OBS", "negotiated": False, "why": "not configurable"}
         return out
@@ -205,6 +210,7 @@ def _observe(sid, ver, etm):
                     want = hmac.new(key, probe, hname).digest()
                 if want == have:
                     mac_probe = "ok"
+    out["viaHrr"] = any(ep == "s" and t == "HRR" for ep, t in toks_sent)
     out["obs"] = {"ev": "OBS", "negotiated": True, "ver": ver[1], "etm": bool(ws.encryptThenMAC), "kuPrf": kuprf,
                   "macProbe": mac_probe,
                   "ske": ske, "cert": cert, "certKey": ck, "factory": factory, "keyLen": klen,
@@ -536,6 +542,8 @@ def run(tier):
     for sid in suites.all_ids():
         for ver in VERS:
             jobs.append((sid, ver, True))
+            if ver == (3, 4) and suites.CipherSuite.ietfNames[sid].count("_") <= 5 and sid in suites.CipherSuite.tls13Suites:
+                jobs.append((sid, ver, "hrr"))
             if ver >= (3, 1) and ver <= (3, 3) and "CBC" in suites.CipherSuite.ietfNames[sid]:
                 jobs.append((sid, ver, False))
     with Pool(16) as pool:
@@ -654,9 +662,18 @@ def run(tier):
                                "observed": se["client"]}, {"sel": se, "tokens": o["tokens"]})
             continue
         ob = o["obs"]
-        rep.case((o["sid"], tuple(o["ver"]), ob.get("etm")), ob["negotiated"])
+        rep.case((o["sid"], tuple(o["ver"]), ob.get("etm"), o.get("variant", "")), ob["negotiated"])
         neg += 1 if ob["negotiated"] else 0
         bad = []
+        if o.get("variant") == "hrr":
+            # the transcript after a HelloRetryRequest starts from message_hash = the SUITE's hash of ClientHello1: a
+            # suite that works in a straight handshake works, with the same meaning, through a retry
+            plain_ok = any(m.get("sid") == o["sid"] and m.get("ver") == o["ver"] and not m.get("variant")
+                           and "obs" in m and m["obs"]["negotiated"] for m in metas)
+            if plain_ok and not ob["negotiated"]:
+                bad.append("negotiated in a straight handshake but not after a HelloRetryRequest: %s" % ob.get("why", ""))
+            if ob["negotiated"] and not o.get("viaHrr"):
+                rep.machinery_errors.append("HRR variant of %s did not go through a HelloRetryRequest" % o["name"])
         if i in rejected:
             bad.append("semantics differ from the registered meaning")
         if ob["negotiated"]:
